@@ -30,7 +30,7 @@
 (* SECOND USE (cfg MIndexTrace): trace validation.                         *)
 (*   ndjson, many traces per file (field tid), lines                       *)
 (*   {tid, ev:"base", system, texture, n, exc, finite,                     *)
-(*        m_e6, below0_e6, above1_e6}                                      *)
+(*        m_e6, below0_e6, above1_e6 [, texc, tsum_e6, tlast_e6]}          *)
 (*        exc "None" | exception class of misorientation_index(o, system)  *)
 (*        m_e6 = M clipped to [0, 2] in 1e-6; below0/above1 = max(0, -M),  *)
 (*        max(0, M - 1) in 1e-6                                            *)
@@ -57,6 +57,35 @@
 (*   uniform-near-0    M_uniform > UniformBound(n, theta_max)              *)
 (*   single-near-1     M_single < 0.99                                     *)
 (*   theory-raises / theory-integral   density raised / |int - 1| > 1e-3   *)
+(*   halfturn-closed-form   see EDGE TEXTURES                              *)
+(*                                                                         *)
+(*   EDGE TEXTURES (the admissible range [0, theta_max] is CLOSED).  Two   *)
+(*   grains related by an exact half-turn have quaternion inner product 0, *)
+(*   i.e. misorientation exactly 180 degrees; with no lattice symmetry     *)
+(*   (triclinic: the only operator is the identity) nothing reduces it, so *)
+(*   the pair sits exactly at theta_max = 180 and belongs to the LAST bin. *)
+(*   EdgeSystems are the systems for which the specification can name such *)
+(*   orientations (triclinic).  Two texture classes exercise that edge:    *)
+(*    "halfturn"  n of the four orientations {identity, two-folds about    *)
+(*       x, y, z}, n in 2..4: EVERY pair is at theta_max, the histogram is *)
+(*       the unit mass on the last bin, and the definition                 *)
+(*       M = 1/2 sum_i |theory_i - observed_i| (1-degree bins) gives the   *)
+(*       closed form  M = (T - t_L + |t_L - 1|) / 2,  T = sum_i theory_i,  *)
+(*       t_L = theory mass of the last bin.  T and t_L are LEAVES: the     *)
+(*       harness evaluates the real misorientations_random on the bins     *)
+(*       and logs tsum_e6, tlast_e6 (texc = exception class) on the base   *)
+(*       line; the law |2 m - (T - t_L + |t_L - 1|)| <= 2e-5 is evaluated  *)
+(*       here (clause halfturn-closed-form).  No pair is near an interior  *)
+(*       bin edge (after any rigid rotation all angles stay within         *)
+(*       rounding of 180, and an angle cannot exceed 180), so relations on *)
+(*       this class get NO flip allowance and are decidable for every n:   *)
+(*       RelTol = 1e-6.                                                    *)
+(*    "twinned"  n/2 random grains plus their exact half-turn partners     *)
+(*       (built so that the inner product is 0 in the float32 arithmetic   *)
+(*       of the histogram): n/2 of the P pairs sit exactly at theta_max in *)
+(*       the base run and just below it after a generic frame rotation -   *)
+(*       the ordinary relation clauses must hold (a histogram that loses   *)
+(*       the pairs at theta_max shifts M between the two runs).            *)
 (*                                                                         *)
 (*   RelTol(P) = 1e-6 + Flips(P)/P,  P = n(n-1)/2 pairs,                   *)
 (*   Flips(P) = 2 + P div 5000: a pair whose angle sits on a bin edge may  *)
@@ -121,7 +150,11 @@ TwoFoldMode(s) == CASE s \in {"orthorhombic", "tetragonal", "hexagonal"} -> "all
                     [] s \in {"monoclinic", "rhombohedral"} -> "any"
                     [] OTHER -> "none"
 
-Textures == {"uniform", "single", "clustered", "girdle"}
+GenericTextures == {"uniform", "single", "clustered", "girdle"}
+EdgeTextures == {"halfturn", "twinned"}        \* pairs exactly at theta_max (closed upper end of the range)
+Textures == GenericTextures \cup EdgeTextures
+EdgeSystems == {"triclinic"}                   \* systems where an exact half-turn is exactly theta_max apart
+HalfturnSizes == {2, 3, 4}                     \* subsets of {identity, two-folds about x, y, z}
 Relations == {"permutation", "frame-generic", "frame-quarter", "twofold-one", "twofold-half"}
 IsTwoFold(t) == t \in {"twofold-one", "twofold-half"}
 ClauseOf(t) == CASE t = "permutation" -> "permutation"
@@ -130,6 +163,7 @@ ClauseOf(t) == CASE t = "permutation" -> "permutation"
 
 \* ================================================================== thresholds (integer arithmetic, 32-bit safe)
 Pairs(n) == (n * (n - 1)) \div 2
+Abs(x) == IF x < 0 THEN -x ELSE x
 
 RECURSIVE ISqrtIter(_, _, _)
 ISqrtIter(x, lo, hi) == IF lo >= hi THEN lo
@@ -144,6 +178,10 @@ IntegralTolE6 == 1000                       \* |integral of the theoretical dens
 Flips(P) == 2 + P \div 5000
 RelVacuous(P) == P < 40
 RelTolE9(P) == 1000 + Flips(P) * (1000000000 \div P)         \* 1e-6 + Flips/P  (P >= 40)
+\* halfturn textures: every angle is at the closed end of the range, no interior bin edge is near
+RelVacuousFor(tx, P) == IF tx = "halfturn" THEN FALSE ELSE RelVacuous(P)
+RelTolForE9(tx, P) == IF tx = "halfturn" THEN 1000 ELSE RelTolE9(P)
+ClosedTolE6 == 10                           \* closed form of the halfturn class: 1e-5
 
 SixSigmaE3 == 1809                          \* 6 * sqrt((1 - 2/pi)/4) = 1.8085, in 1e-3
 UniformVacuous(n, B) == Pairs(n) < B
@@ -152,7 +190,7 @@ UniformBoundE6(n, B) ==                     \* (sqrt(B)/2 + 1.809)/sqrt(P) + 1e-
 
 \* ================================================================== scenario table
 Level(n) == IF n <= FullUpTo THEN "full" ELSE IF n <= ReducedUpTo THEN "reduced" ELSE "minimal"
-TexturesFor(n) == CASE Level(n) = "full" -> Textures
+TexturesFor(n) == CASE Level(n) = "full" -> GenericTextures
                     [] Level(n) = "reduced" -> {"uniform"}
                     [] Level(n) = "minimal" -> {"uniform"}
 RelationsFor(s, n) ==
@@ -170,11 +208,22 @@ IndexScenarios ==
       level |-> Level(n), theta_max |-> ThetaMax(Systems[k]), group_order |-> GroupOrder(Systems[k]),
       relations |-> SetToSeq(RelationsFor(Systems[k], n)),
       axes |-> TwoFoldAxes(Systems[k]), mode |-> TwoFoldMode(Systems[k])] :
-        k \in 1..Len(Systems), tx \in Textures, n \in Sizes, r \in 1..Reps}
+        k \in 1..Len(Systems), tx \in GenericTextures, n \in Sizes, r \in 1..Reps}
+EdgeSizes(tx) == IF tx = "halfturn" THEN HalfturnSizes
+                 ELSE {n \in Sizes : n % 2 = 0 /\ n >= 20 /\ Level(n) = "full"}
+EdgeScenarios ==
+    {[kind |-> "index", system |-> Systems[k], sysno |-> k, texture |-> tx, n |-> n, rep |-> r,
+      level |-> "full", theta_max |-> ThetaMax(Systems[k]), group_order |-> GroupOrder(Systems[k]),
+      relations |-> SetToSeq({t \in Relations : ~IsTwoFold(t) \/ TwoFoldMode(Systems[k]) # "none"}),
+      axes |-> TwoFoldAxes(Systems[k]), mode |-> TwoFoldMode(Systems[k])] :
+        k \in {j \in 1..Len(Systems) : Systems[j] \in EdgeSystems}, tx \in EdgeTextures,
+        n \in Sizes \cup HalfturnSizes, r \in 1..Reps}
 TheoryScenarios ==
     {[kind |-> "theory", system |-> Systems[k], sysno |-> k, theta_max |-> ThetaMax(Systems[k]),
       group_order |-> GroupOrder(Systems[k])] : k \in 1..Len(Systems)}
-Scenarios == {sc \in IndexScenarios : sc.texture \in TexturesFor(sc.n) /\ sc.rep <= RepsFor(sc.n)} \cup TheoryScenarios
+Scenarios == {sc \in IndexScenarios : sc.texture \in TexturesFor(sc.n) /\ sc.rep <= RepsFor(sc.n)}
+             \cup {sc \in EdgeScenarios : sc.n \in EdgeSizes(sc.texture)}
+             \cup TheoryScenarios
 
 \* design-level lemmas about the law itself (TLC evaluates them once, whatever the cfg)
 ISqrtExact(x) == LET s == ISqrt(x) IN s * s <= x /\ (s + 1) * (s + 1) > x
@@ -188,6 +237,9 @@ ASSUME \A n \in Sizes : ~RelVacuous(Pairs(n)) =>
           /\ RelTolE9(Pairs(n)) <= 50000000 + 1000                    \* never looser than 5e-2
           /\ RelTolE9(Pairs(n)) >= 1000
 ASSUME RelVacuous(Pairs(9)) /\ ~RelVacuous(Pairs(10))
+\* the edge classes exist only where an exact half-turn is theta_max apart: no symmetry operator, theta_max = 180
+ASSUME \A s \in EdgeSystems : GroupOrder(s) = 1 /\ ThetaMax(s) = 180
+ASSUME \A n \in HalfturnSizes : ~RelVacuousFor("halfturn", Pairs(n)) /\ RelVacuous(Pairs(n))
 ASSUME \A s \in SystemSet : /\ Len(TwoFoldAxes(s)) = 0 <=> TwoFoldMode(s) = "none"
                             /\ ThetaMax(s) \in {90, 120, 180}
 \* e.g. 200 grains, 180 bins: (6.708 + 1.809)/141.07 + 0.001 = 0.0614
@@ -216,6 +268,8 @@ None == <<>>
 
 BaseVerdicts ==
     IF Ev.system \notin SystemSet \/ Ev.texture \notin Textures \/ Ev.n < 2 THEN Rej("trace-unknown-scenario-class")
+    ELSE IF Ev.texture \in EdgeTextures /\ Ev.system \notin EdgeSystems THEN Rej("trace-unknown-scenario-class")
+    ELSE IF Ev.texture = "halfturn" /\ Ev.n \notin HalfturnSizes THEN Rej("trace-unknown-scenario-class")
     ELSE IF Ev.exc # "None" THEN Rej("raises")
     ELSE IF ~Ev.finite THEN Rej("finite")
     ELSE LET B == ThetaMax(Ev.system) IN
@@ -224,6 +278,12 @@ BaseVerdicts ==
           ELSE IF UniformVacuous(Ev.n, B) THEN Skp("uniform-bound-vacuous")
           ELSE IF Ev.m_e6 > UniformBoundE6(Ev.n, B) THEN Rej("uniform-near-0") ELSE None)
       \o (IF Ev.texture = "single" /\ Ev.m_e6 < SingleMinE6 THEN Rej("single-near-1") ELSE None)
+      \o (IF Ev.texture # "halfturn" THEN None
+          ELSE IF "tsum_e6" \notin DOMAIN Ev \/ "tlast_e6" \notin DOMAIN Ev \/ "texc" \notin DOMAIN Ev
+               THEN Rej("trace-halfturn-without-leaves")
+          ELSE IF Ev.texc # "None" THEN Skp("closed-form-leaves-unavailable")
+          ELSE IF Abs(2 * Ev.m_e6 - (Ev.tsum_e6 - Ev.tlast_e6 + Abs(Ev.tlast_e6 - 1000000))) > 2 * ClosedTolE6
+               THEN Rej("halfturn-closed-form") ELSE None)
 
 BaseNext == IF Ev.system \in SystemSet /\ Ev.n >= 2
             THEN [tid |-> Ev.tid, system |-> Ev.system, texture |-> Ev.texture, n |-> Ev.n,
@@ -244,8 +304,8 @@ PairVerdicts ==
          ELSE IF IsTwoFold(Ev.transform) /\
                  (mode = "none" \/ {Ev.axes[k] : k \in 1..K} # {TwoFoldAxes(cur.system)[k] : k \in 1..Len(TwoFoldAxes(cur.system))})
               THEN Rej("trace-wrong-twofold-axes")
-         ELSE IF RelVacuous(P) THEN Skp("relation-tolerance-vacuous")
-         ELSE LET tol == RelTolE9(P)
+         ELSE IF RelVacuousFor(cur.texture, P) THEN Skp("relation-tolerance-vacuous")
+         ELSE LET tol == RelTolForE9(cur.texture, P)
                   bad == IF mode = "any" THEN \A k \in 1..K : Exceeds(k, tol)
                                           ELSE \E k \in 1..K : Exceeds(k, tol) IN
               IF bad THEN Rej(ClauseOf(Ev.transform)) ELSE None
